@@ -298,6 +298,25 @@ CHECKS["C16"] = dict(
     note="trusted: the evaluator of sa/, str.split's notion of a word; not decided: longer texts, whitespace kinds beyond the sampled ones",
     design="DESIGN.md section 3 C16", bounded=True)
 
+# Widenings after seeded rounds 6 and 7 ("the value / object under test has been used before"), appended to the claim texts
+ALSO = {
+    "C01": "Also: every value of a derived pool (each public operation applied to base values whose views were memoised first) must display its own runs; concrete probe runs that start with zero-width characters.",
+    "C02": "Also: rows with blank runs whose formatting is visible (inverted / underlined coloured blanks), full-width rows ending in plain blanks, the empty array between two frames, and one list object edited in place between renders.",
+    "C03": "Also: single characters are reported as themselves under CURSES and BYTES naming too, and an encoding behaves the same under every name the codec registry knows it by (UTF-8 / U8, ANSI_X3.4-1968 / 646, iso8859-1 / L1).",
+    "C04": "Also: regions that start at or beyond the right edge (zero-column arrays included) and single-cell assignments a[r, c] with a block that does not have exactly one row - rejected, no cell changed.",
+    "C05": "Also: from_str(str(f)) against f for every value of the derived pool (operations on base values that were rendered first).",
+    "C07": "Also: full-width rows ending in plain blanks after longer text, and one list object edited in place between renders.",
+    "C08": "Also: bytes already waiting in the terminal's input queue when the context is entered (the OS model discards them on TCSAFLUSH, as a tty does).",
+    "C12": "Also: every helper context manager is entered and left a second time from a different starting state - leaving restores what THAT entering changed.",
+    "C13": "Also: what a value displays does not depend on look-alike values displayed before it in the same process (0 / False, 1 / True, 31 / 31.0 as attribute values; functools.lru_cache is modelled with its == / hash keys).",
+    "C14": "Also: every fmtfuncs helper still does what its name says after calls with further positional names (accepted or rejected), and shared_atts answers the same after the caller edited the dict it got from an earlier call.",
+    "C15": "Also: receivers arrived at through a history (plain str + looked-at value, looked-at value + plain str) for every method of the generated pool.",
+    "C17": "Also: ordinary text that means something to str formatting (%s, 50% done, {0}) next to sequences that force the error / fallback path.",
+    "C18": "Also: extra_bytes_callback attached, replaced or removed after construction - the callback in place at the time of the query counts.",
+    "C19": "Also: every value of the derived pool equals, hashes like and repr-evaluates to a freshly built value with the same runs; repr of runs whose text holds an escape character that is not an escape sequence.",
+    "C20": "Also: a burst read in one go (a paste event) under each naming mode - bytes naming gives the bytes of each keypress, all modes cut alike.",
+}
+
 NOT_APPLICABLE = []
 
 ALL = ["C%02d" % i for i in range(1, 21)]
@@ -314,7 +333,7 @@ def main():
             "evidence_file": "evidence/%s.json" % pid,
             "replay_cmd_template": "./check %s --replay {path}" % pid,
             "engine": "sa",
-            "level_claimed": {"category": "other", "text": c["text"] + (BOUNDED if c.get("bounded") else PARTIAL if c.get("partial", True) else ""),
+            "level_claimed": {"category": "other", "text": c["text"] + (" " + ALSO[pid] if pid in ALSO else "") + (BOUNDED if c.get("bounded") else PARTIAL if c.get("partial", True) else ""),
                               "design_ref": c["design"]},
             "level_note": c["note"],
             "technique": "static analysis: " + c["technique"],
